@@ -44,7 +44,7 @@ def flagsOK (now : Nat) (cfg : ClientConfigT) : Bool :=
 /-- the address was neither banned nor blacklisted when the message arrived: by the observer's own record of
 explicit bans / blacklistings and by what the server itself reported after the previous event -/
 def gateOpen (T : Track) (ip : Nat) : Bool :=
-  !T.env.xban ip && !T.env.bl ip && !T.prev.bans.getD ip false && !T.prev.bls.getD ip false
+  !T.env.xban ip && !T.env.blocked ip && !T.prev.bans.getD ip false && !T.prev.bls.getD ip false
 
 /-- **Justification**: event `e`, answered by `o`, entitles connection `c` to be treated as client `x`:
 * `e` is a first-connection request on `c`, `x` is a brand-new identity (the table grew by exactly this one
